@@ -143,6 +143,80 @@ theorem sim_login {st : St} {sp : Spec} {now : Nat} (h : Sim st sp now) (hw : no
         · exact c3
         · exact inc_spec c2 c3 c1 addr
 
+theorem basic_none {st : St} (h : st.rl = none) (now : Nat) (r : Req) (good : Bool) :
+    basicAuthX true st now r good =
+      ((if good then .passed else .forbidden), { st with evals := st.evals + 1 }) := by
+  simp [basicAuthX, h]
+
+theorem basic_blocked {st : St} {l : Limiter} (h : st.rl = some l) {now : Nat} {r : Req}
+    (hl : (l.check r.peer now).1 > 0) (good : Bool) :
+    basicAuthX true st now r good =
+      (.tooMany ((l.check r.peer now).1 / nsPerSec), { st with rl := some (l.check r.peer now).2 }) := by
+  have hl' : (l.check (checkAddr r) now).1 > 0 := hl
+  simp only [basicAuthX, h, Bool.not_true, Bool.false_eq_true, if_false, hl', if_true]
+  rfl
+
+theorem basic_pass {st : St} {l : Limiter} (h : st.rl = some l) {now : Nat} {r : Req}
+    (hl : ¬ (l.check r.peer now).1 > 0) (good : Bool) :
+    basicAuthX true st now r good =
+      if good then (.passed, { st with rl := some ((l.check r.peer now).2.remove r.peer), evals := st.evals + 1 })
+      else (.forbidden, { st with rl := some ((l.check r.peer now).2.inc r.peer now), evals := st.evals + 1 }) := by
+  have hl' : ¬ (l.check (checkAddr r) now).1 > 0 := hl
+  simp only [basicAuthX, h, Bool.not_true, Bool.false_eq_true, if_false, hl']
+  rfl
+
+/-- HTTP Basic credentials (with the repair): same gate and bookkeeping. -/
+theorem sim_basic {st : St} {sp : Spec} {now : Nat} (h : Sim st sp now) (req : Req) (good : Bool) :
+    (specStep sp now (.basic req good) (.login (basicAuthX true st now req good).1)).1 = true ∧
+    Sim (basicAuthX true st now req good).2
+      (specStep sp now (.basic req good) (.login (basicAuthX true st now req good).1)).2 now := by
+  obtain ⟨addr, hdr, tr⟩ := req
+  obtain ⟨hthr, hsess⟩ := h
+  cases hrl : st.rl with
+  | none =>
+    unfold SimThr at hthr
+    rw [hrl] at hthr
+    have hrej : mustReject sp addr now = false := by simp [mustReject, hthr]
+    rw [basic_none hrl]
+    cases good with
+    | true =>
+      simp only [if_true, specStep, attemptAddr, hrej]
+      refine ⟨by simp, ?_, simSess_congr hsess rfl rfl rfl rfl rfl rfl rfl⟩
+      unfold SimThr; rw [hrl]; exact hthr
+    | false =>
+      simp only [Bool.false_eq_true, if_false, specStep, attemptAddr, hrej]
+      refine ⟨by simp, ?_, simSess_congr hsess rfl rfl rfl rfl rfl rfl rfl⟩
+      unfold SimThr; rw [hrl]; exact hthr
+  | some l =>
+    unfold SimThr at hthr
+    rw [hrl] at hthr
+    obtain ⟨hen, hmax, hbd, hrecs⟩ := hthr
+    obtain ⟨c1, c2, c3, c4⟩ := check_spec hen hmax hbd hrecs addr
+    by_cases hleft : (l.check addr now).1 > 0
+    · have hrej : mustReject sp addr now = true := by rw [← c4]; simp [hleft]
+      rw [basic_blocked hrl hleft]
+      simp only [specStep, attemptAddr, hrej]
+      exact ⟨by simp, simThr_of_exact hen c2 c3 c1 _ rfl, simSess_congr hsess rfl rfl rfl rfl rfl rfl rfl⟩
+    · have hrej : mustReject sp addr now = false := by rw [← c4]; simp [hleft]
+      rw [basic_pass hrl hleft]
+      cases good with
+      | true =>
+        simp only [if_true, specStep, attemptAddr, hrej]
+        refine ⟨by simp, ?_, simSess_congr hsess rfl rfl rfl rfl rfl rfl rfl⟩
+        refine simThr_of_exact (l := (l.check addr now).2.remove addr) ?_ ?_ ?_ ?_ _ rfl
+        · exact hen
+        · exact c2
+        · exact c3
+        · exact remove_spec c1 addr sp.toks sp.issued
+      | false =>
+        simp only [Bool.false_eq_true, if_false, specStep, attemptAddr, hrej]
+        refine ⟨by simp, ?_, simSess_congr hsess rfl rfl rfl rfl rfl rfl rfl⟩
+        refine simThr_of_exact (l := (l.check addr now).2.inc addr now) ?_ ?_ ?_ ?_ _ rfl
+        · exact hen
+        · exact c2
+        · exact c3
+        · exact inc_spec c2 c3 c1 addr
+
 /-- **One step**: the model's observation is accepted by the monitor and the
 simulation relation is kept. -/
 theorem sim_step {st : St} {sp : Spec} {now : Nat} (h : Sim st sp now) (hw : noWrap sp now = true) (op : Op) :
@@ -150,6 +224,7 @@ theorem sim_step {st : St} {sp : Spec} {now : Nat} (h : Sim st sp now) (hw : noW
     Sim (step st now op).2 (specStep sp now op (step st now op).1).2 now := by
   cases op with
   | login req good user => exact sim_login h hw req good user
+  | basic req good => exact sim_basic h req good
   | request tok =>
     obtain ⟨h1, h2⟩ := sess_request h.2 hw tok
     refine ⟨h1, ?_, h2⟩
@@ -223,6 +298,11 @@ theorem sim_step {st : St} {sp : Spec} {now : Nat} (h : Sim st sp now) (hw : noW
 theorem specStep_ttl (sp : Spec) (now : Nat) (o : Op) (obs : Obs) : (specStep sp now o obs).2.ttl = sp.ttl := by
   cases o with
   | login addr good user =>
+    cases obs with
+    | login r => simp only [specStep]; split <;> rfl
+    | auth b => rfl
+    | done => rfl
+  | basic req good =>
     cases obs with
     | login r => simp only [specStep]; split <;> rfl
     | auth b => rfl
@@ -342,6 +422,10 @@ theorem loggedOut_runLock (tok : Nat) : ∀ (evs : List Ev) (st : St) (sp : Spec
         simp only [FMap.set]
         have : tok ≠ st.nextTok := by omega
         simp [this, hi]
+      | passed => exact ⟨i, hi, hlo⟩
+    | basic req good =>
+      simp only [step, specStep]
+      split <;> exact ⟨i, hi, hlo⟩
     | request t =>
       simp only [step, specStep]
       cases ht : sp.toks t with
